@@ -4,6 +4,7 @@ import (
 	"fmt"
 	"go/token"
 	"go/types"
+	"os"
 	"sort"
 	"strings"
 
@@ -4360,4 +4361,351 @@ func shortStr(s string, n int) string {
 		return s[:n] + "…"
 	}
 	return s
+}
+
+// ruleSweepTaggable (C09.handlers sweep:taggable-map): "Taggable maps ... nested
+// arbitrarily". The dispatchers for the payload and for struct fields hand a Taggable
+// value to filterTaggable; the sweep over map values must agree: wherever it takes a
+// map-kind value into a nested sweep, it first asks whether the value is Taggable,
+// and if so applies its tags (filterTaggable) before sweeping. Otherwise a Taggable
+// map that is a value of an untagged map — or an element of a list held by one — is
+// treated as untagged: public values are redacted, values tagged encrypt / hmac are
+// redacted instead of protected as their tag says.
+func (c *Ctx) ruleSweepTaggable(rule string) {
+	p, r := c.P, c.R
+	fn := c.Fn(rule, PkgEncrypt, "trackedMaps", "processUnfiltered")
+	if fn == nil {
+		return
+	}
+	kMapS := fmt.Sprint(c.reflectKind("Map"))
+	n, ok := 0, true
+	for _, pa := range c.enum(rule, fn, PathOpts{}) {
+		rv := pa.RetVals()
+		if rv == nil || !isNilConst(rv[len(rv)-1]) {
+			continue
+		}
+		// a map-kind VALUE was found (kind test on something other than the swept map itself) and
+		// a nested sweep was started
+		// (every successful path has one positive kind == Map atom: the swept map itself)
+		nMap := 0
+		for _, at := range pa.Atoms {
+			if at.Op == "eq" && !at.Neg && at.L.Is("Call", "(reflect.Value).Kind") && at.R.Is("Const", kMapS) {
+				nMap++
+			}
+		}
+		isMap := nMap >= 2
+		nested, tagged := false, false
+		for _, s := range pa.CallsOn() {
+			if s.Depth != 0 {
+				continue
+			}
+			switch stepCallName(s) {
+			case "(*filters/encrypt.trackedMaps).processUnfiltered":
+				nested = true
+			case "(*filters/encrypt.Filter).filterTaggable":
+				tagged = true
+			}
+		}
+		if !isMap || !nested {
+			continue
+		}
+		n++
+		asked, isTaggable := false, false
+		for _, at := range pa.Atoms {
+			ls := at.L.String()
+			if at.Op == "true" && at.Neg && strings.HasPrefix(ls, "Call[(reflect.Value).CanInterface]") {
+				asked = true // cannot be had as an interface value: cannot be asked
+			}
+			if at.Op == "true" && (strings.Contains(ls, "filters/encrypt.taggableOf") || strings.Contains(ls, "Assert[encrypt.Taggable]")) {
+				asked = true
+				if !at.Neg {
+					isTaggable = true
+				}
+			}
+		}
+		if os.Getenv("EVDEBUG") != "" && !asked {
+			for _, at := range pa.Atoms {
+				fmt.Fprintln(os.Stderr, "DBG", at.Neg, at.Op, shortStr(at.L.String(), 200), "|", shortStr(at.R.String(), 40))
+			}
+			fmt.Fprintln(os.Stderr, "DBG ---- end", p.InstrPos(pa.End))
+		}
+		switch {
+		case !asked && ok:
+			ok = false
+			r.Bad(rule, "processUnfiltered:taggable-map-value", p.InstrPos(pa.End), "the sweep takes a map-kind value into a nested sweep without asking whether it is Taggable: the tags of a Taggable map held by an untagged map (or by a list in one) are never applied — public values are redacted, values tagged for encryption or hmac are redacted instead ("+shortStr(p.PathSummary(pa), 300)+")")
+		case asked && isTaggable && !tagged && ok:
+			ok = false
+			r.Bad(rule, "processUnfiltered:taggable-map-value", p.InstrPos(pa.End), "a map value found Taggable is swept without its tags having been applied (no filterTaggable call on the path)")
+		}
+	}
+	if ok {
+		r.Check(n > 0, rule, "processUnfiltered:taggable-map-value", p.Pos(fn.Pos()), fmt.Sprintf("%d paths take a map value into a nested sweep, each after a Taggable test (tags applied when it is)", n), "no path of the sweep takes a map-kind value into a nested sweep")
+	}
+}
+
+// ruleRotateEnabledAgrees (C15.trigger enabled): rotateEnabled — which decides whether
+// the active file gets a timestamped name — counts as a limit exactly what rotate()
+// acts on: a POSITIVE MaxBytes / MaxDuration. A `!= 0` test makes a negative value
+// turn timestamped names on for a sink that never rotates (and never prunes).
+func (c *Ctx) ruleRotateEnabledAgrees(rule string) {
+	p, r := c.P, c.R
+	fn := c.Fn(rule, PkgRoot, "FileSink", "rotateEnabled")
+	if fn == nil {
+		return
+	}
+	tb := p.NewTerms(nil)
+	n, ok := 0, true
+	eachInstr(fn, func(in ssa.Instruction) {
+		bo, isB := in.(*ssa.BinOp)
+		if !isB {
+			return
+		}
+		switch bo.Op {
+		case token.EQL, token.NEQ, token.LSS, token.GTR, token.LEQ, token.GEQ:
+		default:
+			return
+		}
+		lt, rt := tb.Of(bo.X), tb.Of(bo.Y)
+		field := ""
+		for _, f := range []string{"MaxBytes", "MaxDuration"} {
+			if lt.Find(func(x *Term) bool { return x.Is("Field", f) }) != nil || rt.Find(func(x *Term) bool { return x.Is("Field", f) }) != nil {
+				field = f
+			}
+		}
+		if field == "" {
+			return
+		}
+		n++
+		positive := (bo.Op == token.GTR && rt.Is("Const", "0") && lt.Find(func(x *Term) bool { return x.Is("Field", field) }) != nil) ||
+			(bo.Op == token.LSS && lt.Is("Const", "0") && rt.Find(func(x *Term) bool { return x.Is("Field", field) }) != nil)
+		if !positive {
+			ok = false
+			r.Bad(rule, "rotateEnabled:"+field, p.InstrPos(in), "rotateEnabled tests "+field+" with "+bo.Op.String()+" instead of `> 0`: rotate() only acts on a positive "+field+", so a negative value gives the active file a timestamped name on a sink that never rotates or prunes (every Reopen leaves another file behind)")
+		}
+	})
+	if ok {
+		r.Check(n >= 2, rule, "rotateEnabled", p.Pos(fn.Pos()), "rotateEnabled counts exactly a positive MaxBytes / MaxDuration as a limit, as rotate() does", "rotateEnabled does not test both MaxBytes and MaxDuration")
+	}
+}
+
+// ruleRegistryNoBlocking (C12.blocking): "every Broker call returns in bounded time
+// for every history in which the nodes themselves return". Outside Send's status
+// protocol (decided by C03) a Broker call that fans work out to goroutines collects
+// their results without being able to block them: a goroutine started once per
+// element of a loop does not send on a channel whose capacity is a constant (the
+// number of senders is not bounded by it, and the channel is drained only after
+// all of them are done).
+func (c *Ctx) ruleRegistryNoBlocking(rule string) {
+	p, r := c.P, c.R
+	a := c.protoAnchors(rule)
+	if a == nil {
+		return
+	}
+	protocol := map[*ssa.Function]bool{a.send: true, a.collector: true, a.fanout: true, a.callback: true, a.traverse: true}
+	for _, an := range AnonOf(a.collector) {
+		protocol[an] = true
+	}
+	n, bad := 0, false
+	for _, f := range p.FuncsIn(PkgRoot) {
+		root := f
+		for root.Parent() != nil {
+			root = root.Parent()
+		}
+		if protocol[f] || protocol[root] {
+			continue
+		}
+		if root.Signature.Recv() == nil || typeShort(root.Signature.Recv().Type()) != "eventlogger.Broker" {
+			continue
+		}
+		n++
+		eachInstr(f, func(in ssa.Instruction) {
+			snd, isSend := in.(*ssa.Send)
+			if !isSend {
+				return
+			}
+			// a send in a goroutine that is started once per element of a loop, on a channel
+			// whose capacity is a constant: the number of senders is not bounded by it
+			if f.Parent() == nil {
+				return
+			}
+			startedInLoop := false
+			eachInstr(f.Parent(), func(pin ssa.Instruction) {
+				if g, ok := pin.(*ssa.Go); ok {
+					if mc, ok := g.Call.Value.(*ssa.MakeClosure); ok && mc.Fn == ssa.Value(f) && inCycle(pin.Block()) {
+						startedInLoop = true
+					}
+				}
+			})
+			if !startedInLoop {
+				return
+			}
+			capConst := "unknown"
+			var find func(v ssa.Value, depth int)
+			find = func(v ssa.Value, depth int) {
+				if depth > 4 {
+					return
+				}
+				switch x := v.(type) {
+				case *ssa.MakeChan:
+					if k, ok := constInt(x.Size); ok {
+						capConst = fmt.Sprint(k)
+					} else {
+						capConst = ""
+					}
+				case *ssa.FreeVar:
+					// bound value in the parent's MakeClosure
+					eachInstr(f.Parent(), func(pin ssa.Instruction) {
+						if mc, ok := pin.(*ssa.MakeClosure); ok && mc.Fn == ssa.Value(f) {
+							for i, fv := range f.FreeVars {
+								if fv == x && i < len(mc.Bindings) {
+									find(mc.Bindings[i], depth+1)
+								}
+							}
+						}
+					})
+				case *ssa.UnOp:
+					if al, ok := x.X.(*ssa.Alloc); ok {
+						for _, ref := range nonDebugRefs(al) {
+							if st, ok := ref.(*ssa.Store); ok {
+								find(st.Val, depth+1)
+							}
+						}
+					} else {
+						find(x.X, depth+1)
+					}
+				case *ssa.Alloc:
+					for _, ref := range nonDebugRefs(x) {
+						if st, ok := ref.(*ssa.Store); ok && st.Addr == ssa.Value(x) {
+							find(st.Val, depth+1)
+						}
+					}
+				}
+			}
+			find(snd.Chan, 0)
+			if capConst != "" {
+				bad = true
+				r.Bad(rule, p.ShortFn(root)+":send-per-goroutine", p.InstrPos(in), p.ShortFn(f)+", started once per element of a loop, sends on a channel of constant capacity ("+capConst+") that is only drained after all of them are done: the sender that finds it full blocks for ever, and the Broker call waiting for it never returns although every node returned")
+			}
+		})
+	}
+	if !bad {
+		r.Check(n >= 10, rule, "registry-calls:no-unbounded-senders", "", fmt.Sprintf("%d Broker functions outside the Send protocol: no per-element goroutine sends on a channel of constant capacity", n), "fewer than 10 Broker functions inspected")
+	}
+}
+
+// ruleSweepNoCarriedFlags (C10.ptrvalue per-value): what the sweep decides for one
+// map value (is it held by pointer? was it copied?) is decided afresh for the next:
+// no boolean is carried around the loop over a map's keys. A flag that is set for
+// one value and never reset (a `var fPtr bool` hoisted out of the loop) makes every
+// later value of the map be treated like the earlier one — a plain string comes
+// back as *string, a struct value makes Addr() panic — depending on the random
+// order in which the keys are visited.
+func (c *Ctx) ruleSweepNoCarriedFlags(rule string) {
+	p, r := c.P, c.R
+	fn := c.Fn(rule, PkgEncrypt, "trackedMaps", "processUnfiltered")
+	if fn == nil {
+		return
+	}
+	n, ok := 0, true
+	for h := range loopHeaders(fn) {
+		n++
+		for _, in := range h.Instrs {
+			ph, isPhi := in.(*ssa.Phi)
+			if !isPhi {
+				continue
+			}
+			if b, isB := ph.Type().Underlying().(*types.Basic); !isB || b.Kind() != types.Bool {
+				continue
+			}
+			for i, e := range ph.Edges {
+				pred := h.Preds[i]
+				if !(h.Dominates(pred) && reachableFrom(pred)[h]) {
+					continue
+				}
+				if _, isConst := e.(*ssa.Const); isConst {
+					continue
+				}
+				ok = false
+				name := ph.Comment
+				if name == "" {
+					name = ph.Name()
+				}
+				r.Bad(rule, "processUnfiltered:carried-flag:"+name, p.Pos(fn.Pos()), "the boolean "+name+" is carried from one iteration of a loop of the sweep to the next: what was found out about one map value (for instance that it is held by pointer) is applied to the values visited after it, so their dynamic type in the forwarded event depends on the order of the keys")
+				break
+			}
+		}
+	}
+	if ok {
+		r.Check(n >= 2, rule, "processUnfiltered:per-value-state", p.Pos(fn.Pos()), fmt.Sprintf("%d loops: no boolean is carried from one iteration to the next", n), "fewer than 2 loops found in the sweep")
+	}
+}
+
+// unconditionalBetween: every block on the dominator chain from `to` up to `from` is
+// entered unconditionally from its immediate dominator (no If in between decides
+// whether `to` is reached) — locking and plain statements only.
+func unconditionalBetween(from, to *ssa.BasicBlock) bool {
+	for b := to; b != nil && b != from; b = b.Idom() {
+		d := b.Idom()
+		if d == nil || len(d.Succs) != 1 {
+			return false
+		}
+	}
+	return true
+}
+
+// ruleSweepNestedSet (C09.handlers sweep:nested-set): when the sweep hands a struct (or
+// a Taggable map) found among a map's values to the walkers, the maps those find are
+// recorded in a FRESH set, and that set is swept right afterwards. Recording them in
+// the set that is being swept is too late — its list of maps was taken before the
+// loop started — so they are never visited and their values leave in plaintext.
+func (c *Ctx) ruleSweepNestedSet(rule string) {
+	p, r := c.P, c.R
+	fn := c.Fn(rule, PkgEncrypt, "trackedMaps", "processUnfiltered")
+	if fn == nil {
+		return
+	}
+	argIdx := map[string]int{"(*filters/encrypt.Filter).filterField": 4, "(*filters/encrypt.Filter).filterTaggable": 4}
+	n, ok := 0, true
+	eachInstr(fn, func(in ssa.Instruction) {
+		ci, isCall := in.(*ssa.Call)
+		if !isCall {
+			return
+		}
+		idx, isW := argIdx[calleeName(&ci.Call)]
+		if !isW || idx >= len(ci.Call.Args) {
+			return
+		}
+		n++
+		set := ci.Call.Args[idx]
+		fresh := false
+		var setVal ssa.Value
+		if ex, isEx := set.(*ssa.Extract); isEx && ex.Index == 0 {
+			if nc, isC := ex.Tuple.(*ssa.Call); isC && calleeName(&nc.Call) == "filters/encrypt.newTrackedMaps" {
+				fresh, setVal = true, ex
+			}
+		}
+		swept := false
+		if fresh {
+			for _, ref := range nonDebugRefs(setVal) {
+				if sc, isC := ref.(*ssa.Call); isC && calleeName(&sc.Call) == "(*filters/encrypt.trackedMaps).processUnfiltered" && sc.Call.Args[0] == setVal && (dominatesInstr(in, sc) || (in.Block() != sc.Block() && reachableFrom(in.Block())[sc.Block()] && !inSameLoopBackPath(in.Block(), sc.Block()))) {
+					swept = true
+				}
+			}
+		}
+		if !(fresh && swept) {
+			ok = false
+			r.Bad(rule, "processUnfiltered:nested-set@"+calleeName(&ci.Call), p.InstrPos(in), "the walker called from the sweep records the maps it finds in "+shortStr(p.NewTerms(nil).Of(set).String(), 80)+" — not a set created here and swept right afterwards: maps recorded in the set that is being swept are never visited (its list was taken before the loop), and their values are forwarded in plaintext")
+		}
+	})
+	if ok {
+		r.Check(n >= 2, rule, "processUnfiltered:nested-set", p.Pos(fn.Pos()), fmt.Sprintf("%d walker calls in the sweep, each with a fresh set that is swept afterwards", n), "fewer than 2 walker calls found in the sweep")
+	}
+}
+
+// inSameLoopBackPath: b is reachable from a only by going round a loop that contains
+// both (so "a then b" would be in a later iteration).
+func inSameLoopBackPath(a, b *ssa.BasicBlock) bool {
+	// b reachable from a without passing a loop header that dominates a?  approximate:
+	// b must not dominate a (b comes after a in the iteration)
+	return b.Dominates(a)
 }
